@@ -14,6 +14,7 @@ import (
 	"github.com/bfenetworks/bfe/bfe_balance/bal_gslb"
 	"github.com/bfenetworks/bfe/bfe_config/bfe_cluster_conf/cluster_conf"
 
+	"verifharness/balhist"
 	"verifharness/vkit"
 )
 
@@ -781,5 +782,15 @@ func c09(r *vkit.Run) {
 		if r.Counter(k) == 0 {
 			r.Inconclusive("the workload never reached " + k)
 		}
+	}
+	// differential part: a table that reached a gslb configuration through reloads (incl. added
+	// sub-clusters) must select like a table initialised directly with it
+	scratch := os.Getenv("VERIF_SCRATCH")
+	if scratch == "" {
+		scratch = os.TempDir()
+	}
+	balhist.Run(r, r.N(1500, 30000), scratch)
+	if r.Counter("balhist_added_sorts_before_survivor") == 0 {
+		r.Inconclusive("reload-history monitor never added a sub-cluster sorting before a survivor")
 	}
 }
